@@ -12,13 +12,29 @@ Definition clamps (t : tracker) : Prop :=
 Definition tinv (l : list tracker) : Prop := Forall clamps l.
 
 Lemma clamps_closed : busy_closed clamps.
-Proof. intros x b e H. exact H. Qed.
+Proof. intros x b e sct H. exact H. Qed.
 
-Lemma setters_clamp v w x :
-  clamps (mkT (t_id x) (t_group x) (t_en x) false (t_ev x) (t_sc x) (t_fc x) (t_stl x) (t_ftl x) (set_normal_interval v) (set_min_interval w)).
+Lemma setters_clamp v w :
+  min_normal <= set_normal_interval v <= max_normal /\ min_min <= set_min_interval w <= max_min.
 Proof.
-  pose proof params_facts as (p1&p2&p3&p4&p5). unfold clamps, set_normal_interval, set_min_interval. simpl. lia.
+  pose proof params_facts as (p1&p2&p3&p4&p5). unfold set_normal_interval, set_min_interval. lia.
 Qed.
+
+Lemma worker_upd_clamps r x : clamps x -> clamps (worker_upd r x).
+Proof.
+  intros H. unfold worker_upd. destruct (event_eqb (t_ev x) EvScrape); [exact H |].
+  pose proof (setters_clamp 0 0) as _.
+  destruct r as [iv mv | [[iv mv] |]]; unfold clamps in *; simpl.
+  - apply setters_clamp.
+  - apply setters_clamp.
+  - exact H.
+Qed.
+
+Lemma worker_upd_group r x : t_group (worker_upd r x) = t_group x.
+Proof. unfold worker_upd. destruct (event_eqb (t_ev x) EvScrape); [reflexivity |]. destruct r as [? ? | [[? ?] |]]; reflexivity. Qed.
+
+Lemma worker_upd_id r x : t_id (worker_upd r x) = t_id x.
+Proof. unfold worker_upd. destruct (event_eqb (t_ev x) EvScrape); [reflexivity |]. destruct r as [? ? | [[? ?] |]]; reflexivity. Qed.
 
 Definition trs_ok (s s' : state) : Prop :=
   (nsorted (map t_group (trs s)) -> nsorted (map t_group (trs s'))) /\
@@ -38,13 +54,21 @@ Lemma trs_ok_trans s1 s2 s3 : trs_ok s1 s2 -> trs_ok s2 s3 -> trs_ok s1 s3.
 Proof. intros [a b] [c d]. split; auto. Qed.
 
 Definition timer_op (o : op) : Prop :=
-  match o with OFailure _ _ | OAdvance _ | ONext => True | _ => False end.
+  match o with OFailure _ _ | OAdvance _ | ONext | ONextScrape | ODrain => True | _ => False end.
 
 (* what a step adds to the log *)
+(* the figures an announce of this step carries: those of the download info, which Download::start
+   has just reset (adjusted figures 0) when the step is OStart *)
+Definition ctxo (s : state) (o : op) (r : req) : Prop :=
+  match o with
+  | OStart _ => figures_ok 0 0 (s_left s) r
+  | _ => ctxq s r
+  end.
+
 Definition step_site (s : state) (o : op) (r : req) : Prop :=
-  site r /\ ctxq s r /\
+  site r /\ ctxo s o r /\
   match r_src r with
-  | SrcStart => o = OSendStart \/ o = OStart false
+  | SrcStart => o = OSendStart \/ o = OStart false \/ o = OStartK false
   | SrcStop => o = OSendStop \/ o = OStop false
   | SrcCompleted => o = OSendCompleted
   | SrcUpdate => (o = OSendUpdate \/ o = OManual) /\ same3 (r_fl r) (fl s) /\ f_active (fl s) = true
@@ -85,7 +109,8 @@ Lemma timer_step_site s o x : timer_op o ->
 Proof.
   intros hop h3 ha hp hr hg hu hc hl r (hs & hsrc & hctx & hfl & hact & hn).
   unfold step_site. split; [assumption |]. split.
-  - unfold ctxq in *. rewrite <- hu, <- hc, <- hl. assumption.
+  - assert (Hc : ctxo s o r = ctxq s r) by (destruct o; try contradiction; reflexivity). rewrite Hc.
+    unfold ctxq in *. rewrite <- hu, <- hc, <- hl. assumption.
   - rewrite hsrc, hfl. ssplit; auto; try congruence.
     intros Hn. rewrite (hn Hn). assumption.
 Qed.
@@ -180,7 +205,8 @@ Proof.
   intros E Ho. destruct (send_update_event_spec s Hm) as (a&(b1&b2&b3)&c&k&e). unfold step_ok. rewrite E. ssplit; auto.
   - intros _ H. unfold stop_inv in *. rewrite b3, c. assumption.
   - apply trs_ok_keeps. assumption.
-  - eapply emits_weaken; [| exact e]. intros r (h1&h2&h3&h4&h5). unfold step_site. rewrite h2. auto.
+  - eapply emits_weaken; [| exact e]. intros r (h1&h2&h3&h4&h5). unfold step_site. rewrite h2.
+    destruct Ho; subst o; simpl; auto.
 Qed.
 
 Lemma case_send_update : step_ok s OSendUpdate.
@@ -223,7 +249,7 @@ Proof.
 Qed.
 
 Lemma upd_en_trs_ok id b x :
-  trs_ok x (set_trs x (upd (trs x) id (fun y => mkT (t_id y) (t_group y) b (t_busy y) (t_ev y) (t_sc y) (t_fc y) (t_stl y) (t_ftl y) (t_ni y) (t_mi y)))).
+  trs_ok x (set_trs x (upd (trs x) id (fun y => mkT (t_id y) (t_group y) b (t_busy y) (t_ev y) (t_sc y) (t_fc y) (t_stl y) (t_ftl y) (t_ni y) (t_mi y) (t_scr y) (t_sct y)))).
 Proof.
   apply trs_ok_of_eq; simpl.
   - intros _. apply upd_map. reflexivity.
@@ -299,72 +325,188 @@ Proof.
     destruct (update_timeout_same ni x1) as (u1&u2&u3&_). rewrite u1, u2, u3. ssplit; auto.
 Qed.
 
-Lemma case_success id iv mv : nsorted (map t_group (trs s)) \/ True -> step_ok s (OSuccess id iv mv).
+(* state [x] inside a step from [s]: same controller mode and pending event, same groups, same figures *)
+Definition rel (x : state) : Prop :=
+  same3 (fl x) (fl s) /\ f_active (fl x) = f_active (fl s) /\ f_promisc (fl x) = f_promisc (fl s) /\
+  f_requesting (fl x) = f_requesting (fl s) /\ map t_group (trs x) = map t_group (trs s) /\
+  s_up x = s_up s /\ s_comp x = s_comp s /\ s_left x = s_left s.
+
+Lemma rel_refl : rel s.
+Proof. unfold rel, same3. ssplit; reflexivity. Qed.
+
+Lemma do_timeout_in_step o x : timer_op o -> mask_excl (fl x) -> rel x ->
+  fl (do_timeout x) = fl x /\ keeps x (do_timeout x) /\ emits (step_site s o) x (do_timeout x).
 Proof.
-  intros _. unfold step_ok. simpl. unfold reply_success. destruct (find_id (trs s) id) as [t |].
-  2: { ssplit; auto; [apply trs_ok_same; reflexivity | apply emits_same; reflexivity]. }
-  destruct (negb (t_busy t)).
-  { ssplit; auto; [apply trs_ok_same; reflexivity | apply emits_same; reflexivity]. }
-  match goal with |- context [ctl_receive_success ?e ?n ?y] => set (x := y); set (lat := e); set (nn := n) end.
-  assert (Hx : mask_excl (fl x)) by exact Hm.
-  destruct (ctl_receive_success_facts lat nn x Hx) as (a&b&c&d).
-  assert (Ht : trs_ok s x).
-  { subst x. apply trs_ok_of_eq; simpl.
-    - intros Hs. rewrite upd_map by reflexivity. rewrite promote_gmap; [apply upd_map; reflexivity |].
-      rewrite upd_map by reflexivity. assumption.
-    - intros Hi. apply upd_Forall; [intros y Hy; exact Hy |]. apply promote_Forall.
-      unfold tinv in *. unfold upd. rewrite Forall_forall in *. intros y Hy. apply in_map_iff in Hy.
-      destruct Hy as [z [E Hz]]. subst y. destruct (Nat.eqb (t_id z) id); [apply setters_clamp | apply Hi, Hz]. }
-  ssplit; auto.
-  - eapply trs_ok_trans; [exact Ht | apply trs_ok_same; assumption].
-  - apply emits_same. rewrite a. reflexivity.
+  intros Ho Hx (h3 & ha & hp & hr & hg & hu & hc & hl).
+  destruct (do_timeout_spec x Hx) as (hf & hk & he). ssplit; auto.
+  eapply emits_weaken; [| exact he]. apply timer_step_site; auto.
 Qed.
 
-Lemma case_failure id ivs : step_ok s (OFailure id ivs).
+(* the main-thread part of a reply, run from a state [x] inside a step from [s] *)
+Lemma main_part_ok o x id ok scr : (ok = false -> scr = false -> timer_op o) -> mask_excl (fl x) -> rel x ->
+  let x' := main_part id ok scr x in
+  mask_excl (fl x') /\ (stop_inv (fl x) -> stop_inv (fl x')) /\ trs_ok x x' /\ emits (step_site s o) x x'.
 Proof.
-  unfold step_ok. simpl. unfold reply_failure. destruct (find_id (trs s) id) as [t |].
+  intros Ho Hx Hr. cbv zeta. unfold main_part. destruct scr.
+  - (* scrape reply *)
+    unfold main_scrape. destruct ok; ssplit; auto; try (apply emits_same; reflexivity); try (apply trs_ok_same; reflexivity).
+    apply trs_ok_of_eq; simpl; [intros _; apply upd_map; reflexivity | apply upd_Forall; intros y Hy; exact Hy].
+  - destruct ok.
+    + (* success *)
+      unfold main_success. destruct (find_id (trs x) id) as [t |].
+      2: { ssplit; auto; [apply trs_ok_same; reflexivity | apply emits_same; reflexivity]. }
+      match goal with |- context [ctl_receive_success ?e ?n ?y] => set (y0 := y); set (lat := e); set (nn := n) end.
+      assert (Hy : mask_excl (fl y0)) by exact Hx.
+      destruct (ctl_receive_success_facts lat nn y0 Hy) as (a&b&c&d).
+      assert (Ht : trs_ok x y0).
+      { subst y0. apply trs_ok_of_eq; simpl.
+        - intros Hs. rewrite upd_map by reflexivity. apply promote_gmap. assumption.
+        - intros Hi. apply upd_Forall; [intros y Hy'; exact Hy' |]. apply promote_Forall. assumption. }
+      ssplit; auto.
+      * eapply trs_ok_trans; [exact Ht | apply trs_ok_same; assumption].
+      * apply emits_same. rewrite a. reflexivity.
+    + (* failure *)
+      unfold main_failure.
+      match goal with |- context [set_trs x ?l0] => set (l := l0) end.
+      assert (Hg : map t_group l = map t_group (trs x)) by (subst l; apply upd_map; reflexivity).
+      assert (Hi : tinv (trs x) -> tinv l) by (intros Hi; subst l; apply upd_Forall; [intros y Hy; exact Hy | assumption]).
+      simpl. destruct (negb (f_active (fl x))).
+      { ssplit; auto; [apply trs_ok_of_eq; simpl; auto | apply emits_same; reflexivity]. }
+      match goal with |- context [do_timeout ?y] => set (y0 := y) end.
+      assert (Hy : mask_excl (fl y0)) by (subst y0; simpl; unfold mask_excl in *; dfl x; dbools).
+      assert (Hry : rel y0).
+      { destruct Hr as (h3 & ha & hp & hr & hg & hu & hc & hl). subst y0. unfold rel. simpl. ssplit; auto. congruence. }
+      destruct (do_timeout_in_step o y0 (Ho eq_refl eq_refl) Hy Hry) as (hf & hk & he). rewrite hf.
+      assert (G2 : stop_inv (fl x) -> stop_inv (fl y0)) by (intros H; subst y0; simpl; unfold stop_inv in *; dfl x; dbools).
+      assert (G3 : trs_ok x (do_timeout y0)).
+      { eapply trs_ok_trans; [| apply trs_ok_keeps; exact hk]. apply trs_ok_of_eq; simpl; auto. }
+      assert (G4 : emits (step_site s o) x (do_timeout y0)).
+      { apply emits_trans with (s2 := y0); [apply emits_same; reflexivity | exact he]. }
+      ssplit; auto.
+Qed.
+
+Lemma worker_part_ok r id : let x := set_trs s (upd (trs s) id (worker_upd r)) in
+  rel x /\ trs_ok s x /\ mask_excl (fl x) /\ log x = log s.
+Proof.
+  cbv zeta. ssplit; auto.
+  - unfold rel, same3. simpl. ssplit; auto. apply upd_map. apply worker_upd_group.
+  - apply trs_ok_of_eq; simpl; [intros _; apply upd_map; apply worker_upd_group | apply upd_Forall; apply worker_upd_clamps].
+Qed.
+
+Lemma reply_ok_case o id r : step s o = reply_now id r s -> (reply_ok r = false -> timer_op o) -> step_ok s o.
+Proof.
+  intros E Ho. unfold step_ok. rewrite E. unfold reply_now.
+  destruct (find_id (trs s) id) as [t |].
   2: { ssplit; auto; [apply trs_ok_same; reflexivity | apply emits_same; reflexivity]. }
   destruct (negb (t_busy t)).
   { ssplit; auto; [apply trs_ok_same; reflexivity | apply emits_same; reflexivity]. }
-  match goal with |- context [set_trs s ?y] => set (l := y) end.
-  assert (Hg : map t_group l = map t_group (trs s)).
-  { subst l. rewrite upd_map by reflexivity. apply upd_map. reflexivity. }
-  assert (Hi : tinv (trs s) -> tinv l).
-  { intros Hi. subst l. apply upd_Forall; [intros y Hy; exact Hy |].
-    unfold tinv in *. unfold upd. rewrite Forall_forall in *. intros y Hy. apply in_map_iff in Hy.
-    destruct Hy as [z [E Hz]]. subst y. destruct (Nat.eqb (t_id z) id); [| apply Hi, Hz].
-    destruct ivs as [[iv mv] |]; [apply setters_clamp | exact (Hi z Hz)]. }
-  simpl. destruct (negb (f_active (fl s))).
-  { ssplit; auto; [apply trs_ok_of_eq; simpl; auto | apply emits_same; reflexivity]. }
-  match goal with |- context [do_timeout ?y] => set (x := y) end.
-  assert (Hx : mask_excl (fl x)) by (subst x; flg s).
-  destruct (do_timeout_spec x Hx) as (hf & hk & he). rewrite hf.
-  assert (G2 : OFailure id ivs <> OSendStop -> stop_inv (fl s) -> stop_inv (fl x)) by (intros _ H; subst x; flg s).
-  assert (G3 : trs_ok s (do_timeout x)).
-  { eapply trs_ok_trans; [| apply trs_ok_keeps; exact hk]. apply trs_ok_of_eq; simpl; auto. }
-  assert (G4 : emits (step_site s (OFailure id ivs)) s (do_timeout x)).
-  { apply emits_trans with (s2 := x); [apply emits_same; reflexivity |].
-    eapply emits_weaken; [| exact he].
-    apply timer_step_site; [exact I | ..]; subst x; simpl; auto. unfold same3; auto. }
-  ssplit; assumption.
+  destruct (worker_part_ok r id) as (hr & ht & hm & hl).
+  match goal with |- context [main_part id ?a ?b ?y] => destruct (main_part_ok o y id a b (fun h _ => Ho h) hm hr) as (m1 & m2 & m3 & m4) end.
+  assert (G3 : trs_ok s (main_part id (reply_ok r) (event_eqb (t_ev t) EvScrape) (set_trs s (upd (trs s) id (worker_upd r)))))
+    by (eapply trs_ok_trans; eauto).
+  assert (G4 : emits (step_site s o) s (main_part id (reply_ok r) (event_eqb (t_ev t) EvScrape) (set_trs s (upd (trs s) id (worker_upd r)))))
+    by (eapply emits_trans; [apply emits_same; exact hl | exact m4]).
+  ssplit; auto.
+Qed.
+
+Lemma case_success id iv mv : step_ok s (OSuccess id iv mv).
+Proof. apply (reply_ok_case _ id (RSucc iv mv)); [reflexivity | discriminate]. Qed.
+
+Lemma case_failure id ivs : step_ok s (OFailure id ivs).
+Proof. apply (reply_ok_case _ id (RFail ivs)); [reflexivity | intros _; exact I]. Qed.
+
+Lemma case_done id r : step_ok s (ODone id r).
+Proof.
+  unfold step_ok. simpl. unfold worker_done. destruct (pend s).
+  { ssplit; auto; [apply trs_ok_same; reflexivity | apply emits_same; reflexivity]. }
+  destruct (find_id (trs s) id) as [t |].
+  2: { ssplit; auto; [apply trs_ok_same; reflexivity | apply emits_same; reflexivity]. }
+  destruct (negb (t_busy t)).
+  { ssplit; auto; [apply trs_ok_same; reflexivity | apply emits_same; reflexivity]. }
+  destruct (worker_part_ok r id) as (hr & ht & hm & hl).
+  ssplit; auto. apply emits_same. exact hl.
+Qed.
+
+Lemma case_drain : step_ok s ODrain.
+Proof.
+  unfold step_ok. simpl. unfold drain. destruct (pend s) as [[id [ok scr]] |].
+  2: { ssplit; auto; [apply trs_ok_same; reflexivity | apply emits_same; reflexivity]. }
+  assert (Hr : rel (set_pend s None)) by (unfold rel, same3; simpl; ssplit; reflexivity).
+  destruct (main_part_ok ODrain (set_pend s None) id ok scr (fun _ _ => I) Hm Hr) as (m1 & m2 & m3 & m4).
+  ssplit; auto.
+Qed.
+
+Lemma case_hint ids : step_ok s (OHint ids).
+Proof. eapply quiet; [reflexivity | reflexivity | assumption | auto | apply trs_ok_same; reflexivity]. Qed.
+
+Lemma case_scrape_request sec : step_ok s (OScrapeRequest sec).
+Proof.
+  eapply quiet; [reflexivity | | | |]; simpl; unfold scrape_request; destruct (Z.max sec 0 =? 0); simpl; auto;
+    apply trs_ok_same; reflexivity.
+Qed.
+
+(* scrapes: no announce is logged, only trackers' busy flag / latest event change *)
+Lemma send_scrape_frame t x : log (send_scrape t x) = log x /\ frame x (send_scrape t x).
+Proof.
+  unfold send_scrape. destruct (t_busy t || negb (is_usable t)); [split; [reflexivity | apply frame_refl] |].
+  destruct (negb (t_scr t)); [split; [reflexivity | apply frame_refl] |].
+  destruct (now x <? (t_sct t + scrape_min_gap) * usec); [split; [reflexivity | apply frame_refl] |].
+  split; [reflexivity |]. split; [reflexivity |]. unfold keeps; simpl. ssplit; auto.
+  - apply upd_map. reflexivity.
+  - intros P HP H. apply upd_Forall; [| assumption]. intros y Hy. apply HP. assumption.
+  - apply upd_map. reflexivity.
+Qed.
+
+Lemma scrape_groups_frame fuel : forall rest x, log (scrape_groups fuel rest x) = log x /\ frame x (scrape_groups fuel rest x).
+Proof.
+  induction fuel as [| fuel IH]; intros rest x; simpl; [split; [reflexivity | apply frame_refl] |].
+  destruct rest as [| itr rest']; [split; [reflexivity | apply frame_refl] |].
+  match goal with |- context [if ?c then _ else _] => destruct c end; [apply IH |].
+  match goal with |- context [match ?c with Some _ => _ | None => _ end] => destruct c as [t |] end; [| apply IH].
+  destruct (send_scrape_frame t x) as [a b].
+  match goal with |- context [scrape_groups fuel ?r (send_scrape t x)] => destruct (IH r (send_scrape t x)) as [c d] end.
+  split; [congruence | eapply frame_trans; eauto].
+Qed.
+
+Lemma do_scrape_frame x : log (do_scrape x) = log x /\ frame x (do_scrape x).
+Proof. apply scrape_groups_frame. Qed.
+
+(* Scheduler::perform: each firing is do_timeout or do_scrape from a state related to [s] *)
+Lemma perform_n_ok o fuel : timer_op o -> forall x, mask_excl (fl x) -> rel x ->
+  let x' := perform_n fuel x in
+  fl x' = fl x /\ trs_ok x x' /\ emits (step_site s o) x x'.
+Proof.
+  intros Ho. induction fuel as [| fuel IH]; intros x Hx Hr; cbv zeta; simpl.
+  { ssplit; auto; [apply trs_ok_same; reflexivity | apply emits_same; reflexivity]. }
+  unfold perform1.
+  match goal with |- context [if ?c then Some (do_timeout x) else _] => destruct c end.
+  - destruct (do_timeout_in_step o x Ho Hx Hr) as (hf & hk & he).
+    assert (Hx' : mask_excl (fl (do_timeout x))) by (rewrite hf; exact Hx).
+    assert (Hr' : rel (do_timeout x)).
+    { destruct Hr as (h3 & ha & hp & hr & hg & hu & hc & hl). destruct hk as (k1&k2&k3&k4&k5&_).
+      unfold rel. rewrite hf. ssplit; auto; congruence. }
+    destruct (IH (do_timeout x) Hx' Hr') as (a & b & c).
+    ssplit; [congruence | eapply trs_ok_trans; [apply trs_ok_keeps; exact hk | exact b] | eapply emits_trans; eauto].
+  - match goal with |- context [if ?c then Some _ else None] => destruct c end.
+    2: { ssplit; auto; [apply trs_ok_same; reflexivity | apply emits_same; reflexivity]. }
+    destruct (do_scrape_frame (set_tsc x None)) as [hl (hf & hk)].
+    set (y := do_scrape (set_tsc x None)) in *.
+    assert (Hy : mask_excl (fl y)) by (rewrite hf; exact Hx).
+    assert (Hry : rel y).
+    { destruct Hr as (h3 & ha & hp & hr & hg & hu & hc & hl'). destruct hk as (k1&k2&k3&k4&k5&_).
+      unfold rel. rewrite hf. simpl in *. ssplit; auto; congruence. }
+    destruct (IH y Hy Hry) as (a & b & c).
+    ssplit; [rewrite a, hf; reflexivity | | eapply emits_trans; [apply emits_same; exact hl | exact c]].
+    eapply trs_ok_trans; [| exact b]. eapply trs_ok_trans; [apply (trs_ok_same x (set_tsc x None)); reflexivity | apply trs_ok_keeps; exact hk].
 Qed.
 
 Lemma perform_ok o n : step s o = perform (set_now s n) -> timer_op o -> step_ok s o.
 Proof.
-  intros E Ho. unfold step_ok. rewrite E. unfold perform. simpl.
-  destruct (tmo s) as [t |].
-  2: { ssplit; auto; [apply trs_ok_same; reflexivity | apply emits_same; reflexivity]. }
-  destruct (t <=? n).
-  2: { ssplit; auto; [apply trs_ok_same; reflexivity | apply emits_same; reflexivity]. }
+  intros E Ho. unfold step_ok. rewrite E. unfold perform.
   assert (Hx : mask_excl (fl (set_now s n))) by exact Hm.
-  destruct (do_timeout_spec (set_now s n) Hx) as (hf & hk & he). rewrite hf.
-  assert (G3 : trs_ok s (do_timeout (set_now s n))).
-  { eapply trs_ok_trans; [apply (trs_ok_same s (set_now s n)); reflexivity | apply trs_ok_keeps; exact hk]. }
-  assert (G4 : emits (step_site s o) s (do_timeout (set_now s n))).
-  { apply emits_trans with (s2 := set_now s n); [apply emits_same; reflexivity |].
-    eapply emits_weaken; [| exact he].
-    apply timer_step_site; [exact Ho | ..]; simpl; auto. unfold same3; auto. }
-  ssplit; auto.
+  assert (Hr : rel (set_now s n)) by (unfold rel, same3; simpl; ssplit; reflexivity).
+  destruct (perform_n_ok o 4 Ho (set_now s n) Hx Hr) as (a & b & c).
+  rewrite a. ssplit; auto.
 Qed.
 
 Lemma case_advance dt : step_ok s (OAdvance dt).
@@ -377,11 +519,18 @@ Proof.
   - eapply quiet; [simpl; rewrite Ht; reflexivity | reflexivity | assumption | auto | apply trs_ok_same; reflexivity].
 Qed.
 
-Lemma case_start skip : step_ok s (OStart skip).
+Lemma case_next_scrape : step_ok s ONextScrape.
+Proof.
+  destruct (tsc s) eqn:Ht.
+  - eapply perform_ok; [simpl; rewrite Ht; reflexivity | exact I].
+  - eapply quiet; [simpl; rewrite Ht; reflexivity | reflexivity | assumption | auto | apply trs_ok_same; reflexivity].
+Qed.
+
+Lemma case_startk skip : step_ok s (OStartK skip).
 Proof.
   destruct skip.
   - destruct (ctl_enable_facts false) as (a&b&c&d&_).
-    apply (quiet (OStart true) (ctl_enable false s)); [reflexivity | exact a | exact b | intros _; exact c | exact d].
+    apply (quiet (OStartK true) (ctl_enable false s)); [reflexivity | exact a | exact b | intros _; exact c | exact d].
   - destruct (ctl_enable_facts true) as (a&b&c&d&e1&e2&e3&e4&e5).
     destruct (send_start_event_spec (ctl_enable true s)) as (a'&b'&c'&d'&k&e).
     unfold step_ok. simpl. ssplit; auto.
@@ -389,7 +538,24 @@ Proof.
     + eapply trs_ok_trans; [exact d | apply trs_ok_keeps; exact k].
     + apply emits_trans with (s2 := ctl_enable true s); [apply emits_same; assumption |].
       eapply emits_weaken; [| exact e]. intros r (h1&h2&h3). unfold step_site. rewrite h2.
-      ssplit; auto. unfold ctxq in *. rewrite <- e1, <- e2, <- e3. assumption.
+      ssplit; auto. unfold ctxo, ctxq in *. rewrite <- e1, <- e2, <- e3. assumption.
+Qed.
+
+Lemma case_start skip : step_ok s (OStart skip).
+Proof.
+  destruct skip.
+  - destruct (ctl_enable_facts false) as (a&b&c&d&_).
+    apply (quiet (OStart true) (set_figs (ctl_enable false s) 0 0 (s_left (ctl_enable false s))));
+      [reflexivity | exact a | exact b | intros _; exact c | eapply trs_ok_trans; [exact d | apply trs_ok_same; reflexivity]].
+  - destruct (ctl_enable_facts true) as (a&b&c&d&e1&e2&e3&e4&e5).
+    set (s2 := set_figs (ctl_enable true s) 0 0 (s_left (ctl_enable true s))).
+    destruct (send_start_event_spec s2) as (a'&b'&c'&d'&k&e).
+    unfold step_ok. simpl. fold s2. ssplit; auto.
+    + intros _ _. unfold stop_inv. rewrite c'. discriminate.
+    + eapply trs_ok_trans; [exact d |]. eapply trs_ok_trans; [apply (trs_ok_same _ s2); reflexivity | apply trs_ok_keeps; exact k].
+    + apply emits_trans with (s2 := s2); [apply emits_same; assumption |].
+      eapply emits_weaken; [| exact e]. intros r (h1&h2&h3). unfold step_site. rewrite h2.
+      ssplit; auto. unfold ctxo. unfold ctxq in h3. subst s2. simpl in h3. rewrite e3 in h3. exact h3.
 Qed.
 
 Lemma case_stop skip : step_ok s (OStop skip).
@@ -407,12 +573,12 @@ Proof.
       eapply emits_weaken; [| exact e]. intros r (h1&h2&h3). unfold step_site. rewrite h2. auto.
 Qed.
 
-Lemma insert_op_facts g : let s' := insert_op g s in
+Lemma insert_op_facts g scr : let s' := insert_op g scr s in
   log s' = log s /\ fl s' = fl s /\ trs_ok s s' /\
-  trs s' = insert_tracker (mkT (length (trs s)) g true false EvNone 0 0 0 0 min_normal min_min) (trs s).
+  trs s' = insert_tracker (mkT (length (trs s)) g true false EvNone 0 0 0 0 min_normal min_min scr 0) (trs s).
 Proof.
   cbv zeta. unfold insert_op.
-  set (t := mkT (length (trs s)) g true false EvNone 0 0 0 0 min_normal min_min).
+  set (t := mkT (length (trs s)) g true false EvNone 0 0 0 0 min_normal min_min scr 0).
   assert (Ht : trs_ok s (set_trs s (insert_tracker t (trs s)))).
   { split; simpl.
     - apply insert_sorted.
@@ -427,8 +593,8 @@ Proof.
   - ssplit; auto.
 Qed.
 
-Lemma case_insert g : step_ok s (OInsert g).
-Proof. destruct (insert_op_facts g) as (a&b&c&_). apply (quiet_same_fl _ (insert_op g s)); auto. Qed.
+Lemma case_insert g scr : step_ok s (OInsert g scr).
+Proof. destruct (insert_op_facts g scr) as (a&b&c&_). apply (quiet_same_fl _ (insert_op g scr s)); auto. Qed.
 
 Lemma step_spec o : step_ok s o.
 Proof.
@@ -436,9 +602,10 @@ Proof.
   - apply case_enable. - apply case_disable. - apply case_close. - apply case_send_start.
   - apply case_send_stop. - apply case_send_completed. - apply case_send_update. - apply case_manual.
   - apply case_start_requesting. - apply case_stop_requesting. - apply case_tracker_enable.
-  - apply case_tracker_disable. - apply case_cycle. - apply case_success; right; exact I.
+  - apply case_tracker_disable. - apply case_cycle. - apply case_success.
   - apply case_failure. - apply case_advance. - apply case_next. - apply case_stats.
-  - apply case_start. - apply case_stop. - apply case_insert.
+  - apply case_start. - apply case_startk. - apply case_stop. - apply case_insert.
+  - apply case_scrape_request. - apply case_next_scrape. - apply case_done. - apply case_drain. - apply case_hint.
 Qed.
 
 End Cases.
